@@ -91,6 +91,8 @@ type outcome struct {
 	crash  *crashInfo
 	errStr string
 	dur    time.Duration
+	// before: the runs this worker process had completed before this one (most recent last, at most 64)
+	before []int64
 }
 
 type runner struct {
@@ -137,6 +139,7 @@ func (r *runner) sweep(n int64, nw int, race bool, deadline time.Time, sink func
 				return
 			}
 			defer w.stop()
+			var recent []int64 // runs completed by the current worker process
 			for {
 				run := atomic.AddInt64(&next, 1)
 				if run >= n || time.Now().After(deadline) {
@@ -150,11 +153,16 @@ func (r *runner) sweep(n int64, nw int, race bool, deadline time.Time, sink func
 				}
 				t0 := time.Now()
 				resp, ci, e := w.do(r.request(run), timeout)
-				o := outcome{run: run, race: race, dur: time.Since(t0)}
+				o := outcome{run: run, race: race, dur: time.Since(t0), before: append([]int64(nil), recent...)}
+				recent = append(recent, run)
+				if len(recent) > 64 {
+					recent = recent[len(recent)-64:]
+				}
 				switch {
 				case e != nil:
 					o.errStr = e.Error()
 				case ci != nil:
+					recent = nil // the worker process is gone; the next run starts a new one
 					o.crash = ci
 				case resp.Error != "":
 					o.errStr = resp.Error
@@ -188,6 +196,117 @@ func (r *runner) evalTape(w *worker, tape []uint64, log bool) (vs []sim.Violatio
 		return nil, nil, fmt.Errorf("%s", resp.Error)
 	}
 	return resp.Result.Violations, resp.Result, nil
+}
+
+// evalAfter starts a fresh worker, replays the prelude tapes in it and then the tape.
+func (r *runner) evalAfter(bin string, race bool, prelude [][]uint64, tape []uint64, log bool) ([]sim.Violation, *sim.Result, error) {
+	w, err := startWorker(bin, race, 0)
+	if err != nil {
+		return nil, nil, err
+	}
+	defer w.stop()
+	for _, p := range prelude {
+		if _, _, err := r.evalTape(w, p, false); err != nil {
+			return nil, nil, err
+		}
+	}
+	return r.evalTape(w, tape, log)
+}
+
+// confirmWithPrelude is tried when a finding does not reproduce from its own tape: the run may have
+// failed because of what EARLIER runs left behind in the worker process - state the simulator does
+// not own and cannot reset (a package-level pool, cache or memo; the unchanged library has none
+// besides the ones behind the hooks, but a changed one may). The runs the worker had completed
+// before the failing one are replayed first, in a fresh process: the last 1, 2, 4 ... 64 of them;
+// then as many of them as possible are dropped again; then the failing tape is minimised with the
+// remaining prelude in place. The replay file carries the prelude tapes.
+func (r *runner) confirmWithPrelude(c *candidate, tier string) (string, *replayFile, error) {
+	if len(c.before) == 0 || c.tape == nil || c.v.Oracle == "liveness" {
+		return "", nil, fmt.Errorf("no earlier runs to replay")
+	}
+	bin := r.bin
+	if c.race {
+		bin = r.binRace
+	}
+	// tapes of the earlier runs (generate mode reproduces them; their canonical tapes go into the file)
+	w, err := startWorker(bin, c.race, 0)
+	if err != nil {
+		return "", nil, err
+	}
+	var tapes [][]uint64
+	for _, run := range c.before {
+		resp, ci, e := w.do(r.request(run), time.Duration(r.cfg.TimeoutS)*time.Second)
+		if e != nil || ci != nil || resp == nil || resp.Result == nil {
+			tapes = append(tapes, rawStream(r.seed, r.cfg.Engine, r.prop, run, 1<<12))
+			continue
+		}
+		tapes = append(tapes, resp.Result.Tape)
+	}
+	w.stop()
+	reproduces := func(prelude [][]uint64, tape []uint64) (*sim.Violation, *sim.Result) {
+		for attempt := 0; attempt < 3; attempt++ {
+			vs, res, err := r.evalAfter(bin, c.race, prelude, tape, true)
+			if err != nil {
+				return nil, nil
+			}
+			if v := hasViolation(vs, c.v.Oracle, c.v.Key); v != nil {
+				return v, res
+			}
+		}
+		return nil, nil
+	}
+	var prelude [][]uint64
+	for n := 1; ; n *= 2 {
+		if n > len(tapes) {
+			n = len(tapes)
+		}
+		if v, _ := reproduces(tapes[len(tapes)-n:], c.tape); v != nil {
+			prelude = append([][]uint64(nil), tapes[len(tapes)-n:]...)
+			break
+		}
+		if n == len(tapes) {
+			return "", nil, fmt.Errorf("does not reproduce after the %d runs its worker had completed before it either", len(tapes))
+		}
+	}
+	// drop prelude runs that are not needed (oldest first)
+	for i := 0; i < len(prelude) && len(prelude) > 1; {
+		cand := append(append([][]uint64(nil), prelude[:i]...), prelude[i+1:]...)
+		if v, _ := reproduces(cand, c.tape); v != nil {
+			prelude = cand
+		} else {
+			i++
+		}
+	}
+	sh := &shrinker{r: r, oracle: c.v.Oracle, key: c.v.Key, budget: 150, deadline: time.Now().Add(60 * time.Second), prelude: prelude, bin: bin, race: c.race}
+	if !sh.test(c.tape) && !sh.test(c.tape) {
+		return "", nil, fmt.Errorf("prelude replay is not stable")
+	}
+	origLen := len(sh.best)
+	sh.run()
+	v, res := reproduces(prelude, sh.best)
+	if v == nil {
+		return "", nil, fmt.Errorf("minimised tape does not reproduce after its prelude in a fresh process")
+	}
+	rep := &replayFile{Property: r.prop, Engine: r.cfg.Engine, Tier: tier, Seed: r.seed, Run: c.run, Race: c.race,
+		Oracle: v.Oracle, Key: v.Key, Detail: v.Detail, Tape: sh.best, Prelude: prelude,
+		Shrink: fmt.Sprintf("(minimised %d->%d choices in %d replays; shows only after %d earlier run(s) in the same process - state outside the simulator survives between runs; their tapes are in the replay file)", origLen, len(sh.best), sh.tries, len(prelude))}
+	if res != nil {
+		rep.Sample, rep.Scenario, rep.Log = res.Sample, res.Scenario, res.Log
+	}
+	path, err := writeReplay(r, rep, c.run)
+	return path, rep, err
+}
+
+func writeReplay(r *runner, rep *replayFile, run int64) (string, error) {
+	dir := filepath.Join(verifDir, "replays")
+	os.MkdirAll(dir, 0o755)
+	name := fmt.Sprintf("%s-%s-seed%d-run%d.json", r.prop, sanitize(rep.Oracle+"-"+rep.Key), r.seed, run)
+	path := filepath.Join(dir, name)
+	b, _ := json.MarshalIndent(rep, "", " ")
+	if err := os.WriteFile(path, b, 0o644); err != nil {
+		return "", err
+	}
+	return path, nil
 }
 
 func hasViolation(vs []sim.Violation, oracle, key string) *sim.Violation {
@@ -238,6 +357,10 @@ type shrinker struct {
 	bestRes  *sim.Result
 	bestV    sim.Violation
 	lastSeen string
+	// prelude: when set, every test starts a fresh worker and runs these tapes first
+	prelude [][]uint64
+	bin     string
+	race    bool
 }
 
 func (s *shrinker) test(c []uint64) bool {
@@ -245,7 +368,14 @@ func (s *shrinker) test(c []uint64) bool {
 		return false
 	}
 	s.tries++
-	vs, res, err := s.r.evalTape(s.w, c, false)
+	var vs []sim.Violation
+	var res *sim.Result
+	var err error
+	if s.prelude != nil {
+		vs, res, err = s.r.evalAfter(s.bin, s.race, s.prelude, c, false)
+	} else {
+		vs, res, err = s.r.evalTape(s.w, c, false)
+	}
 	if err != nil {
 		s.lastSeen = "error: " + err.Error()
 		return false
@@ -365,10 +495,14 @@ type replayFile struct {
 	Key      string   `json:"key"`
 	Detail   string   `json:"detail"`
 	Tape     []uint64 `json:"tape"`
-	Sample   string   `json:"sample,omitempty"`
-	Scenario any      `json:"scenario,omitempty"`
-	Log      []string `json:"log,omitempty"`
-	Shrink   string   `json:"shrink,omitempty"`
+	// Prelude: tapes of earlier runs that must be executed first, in the same process, for the
+	// finding to show (state the simulator does not own - a package-level pool or cache - survives
+	// from run to run). Empty for almost every finding.
+	Prelude  [][]uint64 `json:"prelude,omitempty"`
+	Sample   string     `json:"sample,omitempty"`
+	Scenario any        `json:"scenario,omitempty"`
+	Log      []string   `json:"log,omitempty"`
+	Shrink   string     `json:"shrink,omitempty"`
 }
 
 // ---------------------------------------------------------------- known findings
@@ -417,6 +551,8 @@ type candidate struct {
 	res  *sim.Result
 	n    int
 	alts []*candidate // further runs that showed the same (oracle, key): tried when this one does not reproduce
+	// before: the runs its worker process had completed earlier (see confirmWithPrelude)
+	before []int64
 }
 
 func cmdCheck(args []string) int {
@@ -496,21 +632,21 @@ func cmdCheck(args []string) int {
 			k := v.Oracle + "\x00" + v.Key
 			c := cands[k]
 			if c == nil {
-				c = &candidate{v: v, run: o.run, race: o.race, res: o.res}
+				c = &candidate{v: v, run: o.run, race: o.race, res: o.res, before: o.before}
 				if o.res != nil {
 					c.tape = o.res.Tape
 				}
 				cands[k] = c
 				candOrder = append(candOrder, k)
 			} else {
-				alt := &candidate{v: v, run: o.run, race: o.race, res: o.res}
+				alt := &candidate{v: v, run: o.run, race: o.race, res: o.res, before: o.before}
 				if o.res != nil {
 					alt.tape = o.res.Tape
 				}
 				if o.res != nil && (c.tape == nil || len(o.res.Tape) < len(c.tape)) {
 					// keep the smallest witness tape as the shrink start, the previous one as an alternative
-					prev := &candidate{v: c.v, run: c.run, race: c.race, res: c.res, tape: c.tape}
-					c.v, c.run, c.race, c.res, c.tape = v, o.run, o.race, o.res, o.res.Tape
+					prev := &candidate{v: c.v, run: c.run, race: c.race, res: c.res, tape: c.tape, before: c.before}
+					c.v, c.run, c.race, c.res, c.tape, c.before = v, o.run, o.race, o.res, o.res.Tape, o.before
 					alt = prev
 				}
 				if len(c.alts) < 8 {
@@ -565,6 +701,17 @@ func cmdCheck(args []string) int {
 			path, rep, cerr = r.confirmAndMinimise(a, *tier)
 			if cerr == nil {
 				c.run = a.run
+			}
+		}
+		if cerr != nil {
+			// not alone, from none of its witnesses: perhaps after what earlier runs left in the process
+			tryP := append([]*candidate{c}, c.alts...)
+			for i := 0; i < len(tryP) && i < 4 && cerr != nil; i++ {
+				p2, rep2, e2 := r.confirmWithPrelude(tryP[i], *tier)
+				if e2 == nil {
+					path, rep, cerr = p2, rep2, nil
+					c.run = tryP[i].run
+				}
 			}
 		}
 		if cerr != nil && c.v.Oracle == "liveness" && c.v.Key == "hang" {
@@ -783,9 +930,21 @@ func cmdReplay(args []string) int {
 		fatal2("%v", err)
 	}
 	defer w.stop()
+	for _, p := range rep.Prelude {
+		if _, _, err := r.evalTape(w, p, false); err != nil {
+			fatal2("prelude: %v", err)
+		}
+	}
 	vs, res, err := r.evalTape(w, rep.Tape, true)
 	if err != nil {
 		fatal2("%v", err)
+	}
+	for i := 0; i < 3 && len(rep.Prelude) > 0 && hasViolation(vs, rep.Oracle, rep.Key) == nil; i++ {
+		// state in a real sync.Pool is per-P and may be dropped by a GC cycle: a few attempts, each in a fresh process
+		vs, res, err = r.evalAfter(bin, rep.Race, rep.Prelude, rep.Tape, true)
+		if err != nil {
+			fatal2("%v", err)
+		}
 	}
 	for i := 0; i < 5 && rep.Oracle == "race" && hasViolation(vs, rep.Oracle, rep.Key) == nil; i++ {
 		// race reports depend on ThreadSanitizer still holding the earlier access: a few attempts
